@@ -1730,6 +1730,11 @@ mod crypto {
 
     impl Drop for CryptoWriter<'_> {
         fn drop(&mut self) {
+            if self.failed {
+                // A previous flush has already failed and reported its error. The buffered data is lost;
+                // flushing again would only fail (and panic) again.
+                return;
+            }
             self.flush().expect("The implicit flush in the Drop of CryptoWriter failed. This causes this panic. If you want to be able to handle this, make sure to call flush() manually. If a manual flush has failed, Drop won't panic.");
         }
     }
@@ -1835,7 +1840,10 @@ mod crypto {
     impl Write for CryptoWriter<'_> {
         fn write(&mut self, buf: &[u8]) -> Result<usize, Error> {
             if self.failed {
-                panic!("Call to failed CryptoWriter");
+                return Err(Error::new(
+                    ErrorKind::Other,
+                    "Write to a CryptoWriter whose previous flush failed",
+                ));
             }
             self.buf.extend(buf);
             if self.buf.len() > CRYPTO_BUFSIZE {
